@@ -247,10 +247,10 @@ func main() {
 						bump("python-vs-go-differs implied by python-roundtrip-differs (docs)")
 						outcome += "+vs-go-differs"
 					case goDev && !pyDev:
-						fail(c, "python-vs-go-differs", "="+diffClass(c.Schema, doc, goText)+" [go deviates]", doc, fmt.Sprintf("for the same document Python writes %s (JSON-equal to the document) and Go writes %s", pyJSON, goText))
+						fail(c, "python-vs-go-differs", "="+diffClassCoarse(c.Schema, doc, goText)+" [go deviates]", doc, fmt.Sprintf("for the same document Python writes %s (JSON-equal to the document) and Go writes %s", pyJSON, goText))
 						outcome += "+vs-go-differs(go)"
 					default:
-						fail(c, "python-vs-go-differs", "="+diffClass(c.Schema, goText, pyJSON)+" [both]", doc, fmt.Sprintf("for the same document Go writes %s and Python writes %s; neither is JSON-equal to the document", goText, pyJSON))
+						fail(c, "python-vs-go-differs", "="+diffClassCoarse(c.Schema, goText, pyJSON)+" [both]", doc, fmt.Sprintf("for the same document Go writes %s and Python writes %s; neither is JSON-equal to the document", goText, pyJSON))
 						outcome += "+vs-go-differs(both)"
 					}
 				}
